@@ -54,9 +54,9 @@ func v4Usable(network string, rs, re int, gw string) []string {
 // ---------------- dhcp.Pool ----------------
 
 type DHCPCfg struct {
-	Net, Gateway           string
+	Net, Gateway               string
 	ReservedStart, ReservedEnd int
-	Subs                   []string
+	Subs                       []string
 }
 
 type dhcpSys struct {
